@@ -278,6 +278,14 @@ func (sc *collection) doBuild(ctx context.Context) (Provider, error) {
 		}
 	}
 
+	if err := sc.validateDependencies(); err != nil {
+		return nil, &BuildError{
+			Phase:   "validation",
+			Details: "dependency validation failed",
+			Cause:   err,
+		}
+	}
+
 	// Phase 4: Create provider with fast ID generation
 	// Count void-return scoped descriptors for pre-allocation
 	voidCount := 0
@@ -724,6 +732,39 @@ func (r *collection) registerDescriptor(descriptor *Descriptor) error {
 
 	// Track in allDescriptors for efficient iteration
 	r.allDescriptors = append(r.allDescriptors, descriptor)
+
+	return nil
+}
+
+// validateDependencies ensures that every required dependency of every
+// registered service - whatever its lifetime - is itself registered or is one
+// of the built-in injectables, so that a missing dependency is reported by
+// Build instead of by a later resolution. Optional dependencies and groups
+// (which may be empty) are not required.
+func (c *collection) validateDependencies() error {
+	for _, descriptor := range c.allDescriptors {
+		if descriptor == nil {
+			continue
+		}
+
+		for _, dep := range descriptor.Dependencies {
+			if dep == nil || dep.Optional || dep.Group != "" {
+				continue
+			}
+
+			if _, isBuiltIn := reservedTypes[dep.Type]; isBuiltIn && dep.Key == nil {
+				continue
+			}
+
+			if _, ok := c.services[TypeKey{Type: dep.Type, Key: dep.Key}]; !ok {
+				return &ResolutionError{
+					ServiceType: dep.Type,
+					ServiceKey:  dep.Key,
+					Cause:       fmt.Errorf("required by %s: %w", formatType(descriptor.Type), ErrServiceNotFound),
+				}
+			}
+		}
+	}
 
 	return nil
 }
